@@ -447,6 +447,7 @@ type nhCluster struct {
 	shard   uint64
 	shards  []uint64
 	slowUs  int
+	armOnRecover bool
 	ssShards uint64
 	smType  string // regular | concurrent | ondisk
 	store   string // pebble | tan
